@@ -54,6 +54,7 @@ theorem panic_site_inventory : Facts.panicSites = [
   "init: panic(...)",
   "init: panic(...)",
   "init: panic(...)",
+  "init: panic(...)",
   "validateHeaderParameters: v[0]",
   "validateHeaderParameters: v[0]",
   "validateHeaderParameters: v[len(v)-1]",
